@@ -86,7 +86,7 @@ struct Emitter {
   static bool transparent(const Stmt *S) {
     return isa<ParenExpr>(S) || isa<ExprWithCleanups>(S) || isa<MaterializeTemporaryExpr>(S) || isa<CXXBindTemporaryExpr>(S) ||
            isa<ConstantExpr>(S) || isa<ImplicitCastExpr>(S) || isa<CXXDefaultArgExpr>(S) || isa<CXXDefaultInitExpr>(S) ||
-           isa<SubstNonTypeTemplateParmExpr>(S) || isa<OpaqueValueExpr>(S);
+           isa<SubstNonTypeTemplateParmExpr>(S) || isa<OpaqueValueExpr>(S) || isa<CXXRewrittenBinaryOperator>(S);
   }
   static const Expr *strip(const Expr *E) {
     while (E) {
@@ -99,6 +99,7 @@ struct Emitter {
       else if (auto *X = dyn_cast<CXXDefaultArgExpr>(E)) E = X->getExpr();
       else if (auto *X = dyn_cast<CXXDefaultInitExpr>(E)) E = X->getExpr();
       else if (auto *X = dyn_cast<SubstNonTypeTemplateParmExpr>(E)) E = X->getReplacement();
+      else if (auto *X = dyn_cast<CXXRewrittenBinaryOperator>(E)) E = X->getSemanticForm();
       else if (auto *X = dyn_cast<OpaqueValueExpr>(E)) { if (X->getSourceExpr()) E = X->getSourceExpr(); else break; }
       else break;
     }
